@@ -44,7 +44,7 @@ def scalar_strategy(kind, mode):
     raise KeyError(kind)
 
 
-def case_strategy(op, db, mode="mp", order=None, strata=None):
+def case_strategy(op, db, mode="mp", order=None, strata=None, strata_b=None):
     """mode 'mp': all regular strata; mode 'f64': the well-conditioned stratum only."""
     if strata is None:
         strata = ("moderate",) if mode == "f64" else gen.REGULAR
@@ -58,14 +58,14 @@ def case_strategy(op, db, mode="mp", order=None, strata=None):
             pairs = st.builds(lambda a, b: {"rel": "independent", "a": a, "b": {"stratum": "beta3", "c": [*b, 0.0]}},
                               gen.vec(strata), gen.beta3(moderate=(mode == "f64")))
         else:
-            bstrata = ("moderate",) if mode == "f64" else gen.TIMELIKE_FWD
+            bstrata = strata_b or (("moderate",) if mode == "f64" else gen.TIMELIKE_FWD)
             pairs = gen.pair(strata, relations=("independent", "independent", "equal"), strata_b=bstrata)
     elif "axis" in op.tags:
-        pairs = gen.pair(strata, relations=("independent", "independent", "parallel", "perpendicular"))
+        pairs = gen.pair(strata, relations=("independent", "independent", "parallel", "perpendicular"), strata_b=strata_b)
     elif op.name in ("equal", "not_equal", "isclose"):
-        pairs = gen.pair(strata, relations=("independent", "equal"))
+        pairs = gen.pair(strata, relations=("independent", "equal"), strata_b=strata_b)
     else:
-        pairs = gen.pair(strata)
+        pairs = gen.pair(strata, strata_b=strata_b)
     sc = {}
     for name in op.scalars:
         kind = catalog.SCALAR_KIND[name]
